@@ -13,6 +13,8 @@ R3 = {  # round 3 (kept under /tmp/wt3/keep until confirmed): detecting checks
 items = []
 for d in sorted(glob.glob("/verif/seeded/*/")):
     name = os.path.basename(d.rstrip("/"))
+    if not os.path.exists(d + "meta.json") or re.search(r"-3", name):
+        continue          # round 3 is taken from the table below
     meta = json.load(open(d + "meta.json"))
     prop = name.split("-")[0]
     det = meta.get("detected_by") or ""
@@ -27,8 +29,6 @@ for d in sorted(glob.glob("/verif/seeded/*/")):
 if os.path.isdir("/tmp/wt3/keep"):
     for k, v in sorted(R3.items()):
         name = k.replace("/", "-3")
-        if os.path.isdir("/verif/seeded/" + name):
-            continue
         items.append((name, "/tmp/wt3/keep/%s/patch.diff" % k, v.split()))
 out = open("/tmp/seed_matrix.txt", "a")
 for name, pf, checks in items:
